@@ -272,6 +272,23 @@ class Run:
         shutil.rmtree(wd, ignore_errors=True)
         return int(m.group(1))
 
+    def apalache_inductive(self, module, cinit="CInit", init="Init", indinit="IndInit", inv="IndInv", timeout=600):
+        """Apalache: Init => inv (length 0) and indinit /\\ Next => inv' (length 1) on spec/<module>.tla.
+        A failure is a tooling failure of the specification layer, never a verdict about the code."""
+        wd = self.mkdir("apalache-" + module)
+        shutil.copy(os.path.join(SPEC, module + ".tla"), wd)
+        for i, length in ((init, 0), (indinit, 1)):
+            try:
+                p = subprocess.run(["apalache-mc", "check", "--cinit=" + cinit, "--init=" + i, "--inv=" + inv, "--length=%d" % length, module + ".tla"],
+                                   cwd=wd, stdout=subprocess.PIPE, stderr=subprocess.STDOUT, timeout=timeout)
+            except subprocess.TimeoutExpired:
+                die_tooling("apalache timed out on %s" % module)
+            out = p.stdout.decode("utf-8", "replace")
+            if p.returncode != 0 or "EXITCODE: OK" not in out:
+                die_tooling("apalache did not establish %s from %s on %s:\n%s" % (inv, i, module, out[-2000:]))
+        shutil.rmtree(wd, ignore_errors=True)
+        self.tlc_runs.append({"module": module, "mode": "apalache-inductive", "generated": 0, "distinct": 0, "wall_s": 0, "ok": True})
+
     def tlc_simulate_many(self, module, cfg, total, depth, procs=8, timeout=2400, extra_modules=None):
         """total simulated behaviours from `procs` TLC processes run side by side, each single-worker with its own
         seed derived from the run's seed (TLC's simulation workers share one random sequence, so -workers does not help);
